@@ -302,6 +302,8 @@ STAGES = {
     'C20': {
         'quick': [
             ('send-2x2-b2-multiline', 'Session', cfg(SHAPES='{"multi"}', CLASSES='{"t4", "p5"}', CAPSETS='{{"ENHANCEDSTATUSCODES"}, {}}')),
+            # a nil entry in the batch
+            ('send-3x1-b1-nil-entry', 'Session', cfg(N='3', MAXR='1', BUDGET='1', SHAPES='{"lead"}', CLASSES='{"t4", "p5"}', CAPSETS='{{"ENHANCEDSTATUSCODES"}}', VARIANTS='{"nilmsg"}')),
             # DialAndSend: a message fails AND the closing QUIT is not confirmed - the returned error still lists the failed messages
             ('dialandsend-2x1-b2', 'Session', cfg(OP='"DialAndSend"', N='2', MAXR='1', BUDGET='2', SHAPES='{"lead"}', CLASSES='{"t4", "p5"}', CAPSETS='{{"ENHANCEDSTATUSCODES"}}')),
             ('send-2x1-b1-terse-replies', 'Session', cfg(N='2', MAXR='1', BUDGET='1', SHAPES='{"terse", "multiterse", "xlead"}', CLASSES='{"t4", "p5"}', CAPSETS='{{"ENHANCEDSTATUSCODES"}, {}}')),
